@@ -96,6 +96,9 @@ pub struct Case {
     pub rooted: bool,
     pub author: bool,
     pub debug: bool,
+    /// the document ends with a nested, namespaced (pass-through) <svg> element - which is not a root
+    #[serde(default)]
+    pub nested_ns: bool,
 }
 
 fn el_xml(i: usize, e: &El) -> XEl {
@@ -128,6 +131,9 @@ pub fn case_xml(c: &Case) -> String {
         kids.push(X::El(XEl::new("rect").a("xy", "0 -20").a("wh", "5").a("class", "mine")));
     }
     kids.extend(c.els.iter().enumerate().map(|(i, e)| X::El(el_xml(i, e))));
+    if c.nested_ns {
+        kids.push(X::El(XEl::new("g").kid(XEl::new("svg").a("xmlns", "http://www.w3.org/2000/svg").a("x", "0").a("y", "40").a("width", "4").a("height", "4").kid(XEl::new("circle").a("cx", "2").a("cy", "2").a("r", "2")))));
+    }
     if c.rooted {
         XEl { name: "svg".into(), attrs: vec![], kids }.to_xml()
     } else {
@@ -149,8 +155,8 @@ fn class_strategy() -> BoxedStrategy<String> {
 }
 
 fn fam_subsets(_t: Tier) -> BoxedStrategy<Case> {
-    (vec((0u8..8, vec(class_strategy(), 0..5)), 1..9), 0..6usize, prop_oneof![3 => Just("default".to_string()), 1 => Just("lightgrey".to_string()), 1 => Just("none".to_string())], prop_oneof![3 => Just("sans-serif".to_string()), 1 => Just("Ubuntu Mono".to_string())], prop::bool::weighted(0.15), prop::bool::weighted(0.9), prop::bool::weighted(0.9), prop::bool::weighted(0.3), prop::bool::weighted(0.15))
-        .prop_map(|(els, th, background, font_family, local, auto, rooted, author, debug)| Case { els: els.into_iter().map(|(kind, classes)| El { kind, classes }).collect(), theme: THEMES[th].to_string(), background, font_family, local, auto, rooted, author, debug })
+    (vec((0u8..8, vec(class_strategy(), 0..5)), 1..9), 0..6usize, prop_oneof![3 => Just("default".to_string()), 1 => Just("lightgrey".to_string()), 1 => Just("none".to_string())], prop_oneof![3 => Just("sans-serif".to_string()), 1 => Just("Ubuntu Mono".to_string())], prop::bool::weighted(0.15), prop::bool::weighted(0.9), prop::bool::weighted(0.9), prop::bool::weighted(0.3), prop::bool::weighted(0.15), prop::bool::weighted(0.3))
+        .prop_map(|(els, th, background, font_family, local, auto, rooted, author, debug, nested_ns)| Case { els: els.into_iter().map(|(kind, classes)| El { kind, classes }).collect(), theme: THEMES[th].to_string(), background, font_family, local, auto, rooted, author, debug, nested_ns })
         .boxed()
 }
 
@@ -167,10 +173,10 @@ fn singletons() -> Vec<Case> {
         for th in THEMES {
             // every class on a rect with text, on a line and on a text element
             let els = vec![El { kind: 0, classes: vec![c.clone()] }, El { kind: 2, classes: vec![c.clone()] }, El { kind: 3, classes: vec![c.clone()] }];
-            v.push(Case { els, theme: th.to_string(), background: "default".into(), font_family: "sans-serif".into(), local: false, auto: true, rooted: true, author: k % 7 == 0, debug: false });
+            v.push(Case { els, theme: th.to_string(), background: "default".into(), font_family: "sans-serif".into(), local: false, auto: true, rooted: true, author: k % 7 == 0, debug: false, nested_ns: k % 5 == 0 });
         }
         // and once on a shape without any text element in the document
-        v.push(Case { els: vec![El { kind: 1, classes: vec![c.clone()] }], theme: "default".into(), background: "default".into(), font_family: "sans-serif".into(), local: false, auto: true, rooted: true, author: false, debug: false });
+        v.push(Case { els: vec![El { kind: 1, classes: vec![c.clone()] }], theme: "default".into(), background: "default".into(), font_family: "sans-serif".into(), local: false, auto: true, rooted: true, author: false, debug: false, nested_ns: false });
     }
     v
 }
